@@ -242,10 +242,10 @@ func (s ExtendedSpatialID) Higher(hDiff, vDiff int64) *ExtendedSpatialID {
 	var vZoom = s.vZoom - vDiff
 
 	var hDiv = int64(math.Pow(2, float64(hDiff)))
-	var vDiv = int64(math.Pow(2, float64(vDiff)))
 	var x = s.x / hDiv
 	var y = s.y / hDiv
-	var z = s.z / vDiv
+	// 高さIDは負の値を取り得るため、床関数となる算術シフトで求める
+	var z = s.z >> uint64(vDiff)
 
 	return &ExtendedSpatialID{
 		hZoom: hZoom,
